@@ -1213,3 +1213,6 @@ def parts(tier):
     from vt.props import c19_files   # part that needs generated LIS files
     ret.extend(c19_files.parts(tier))
     return ret
+
+
+RULE += '  Added after the seeding rounds: adapter-plot gives the plot interval in metres for data in feet and the reverse (every second case); generated FILM tables use every DSCA code of the scale map including D240.'
